@@ -93,7 +93,7 @@ def run():
     re_ = run_tlc("MC_SMList", "SMList_edges")
     ops = sorted({x["call"]["op"] for x in re_.json})
     results["list_model_operations_exported"] = ops
-    ok_all &= len(ops) == 15
+    ok_all &= len(ops) == 17
     os.makedirs(common.EVID, exist_ok=True)
     with open(os.path.join(common.EVID, "selftest.json"), "w") as f:
         json.dump({"ok": bool(ok_all), "results": results}, f, indent=1, default=str)
